@@ -64,11 +64,6 @@ pub fn oracle() -> Oracle {
         if out.is_empty() {
             accounting_findings(run, &run.obs_post, "after the sequential probe", out);
         }
-        for c in run.calls.iter() {
-            if let Res::Panicked(m) = &c.res {
-                out.push(Finding::new("caller-panic", format!("panic:{}", normalize_panic(m)), format!("{} panicked: {}", c.op.short(), m)));
-            }
-        }
     })
 }
 
